@@ -151,6 +151,13 @@ func supervise(names []string, secs int, tier string) {
 				panics = 1
 			}
 			fmt.Fprintf(w, "C18 soak %s => ops=0 torn=0 panics=%d stalled=%d races=%d\n", r.name, panics, stalled, races)
+			if dir := os.Getenv("VERIF_SCRATCH"); dir != "" {
+				// the report of the oracle (race report / panic trace / goroutine dump) is the replay's evidence
+				rp := dir + "/" + r.name + ".report.txt"
+				if os.WriteFile(rp, []byte(tail(r.stderr, 400000)), 0o644) == nil {
+					fmt.Fprintf(w, "# report of the runtime oracle for %s: %s\n", r.name, rp)
+				}
+			}
 			fmt.Fprintf(os.Stderr, "=== %s: child exit %d; report:\n%s\n", r.name, r.code, tail(r.stderr, 60000))
 		} else if len(r.stderr) > 0 {
 			fmt.Fprintf(os.Stderr, "=== %s stderr:\n%s\n", r.name, tail(r.stderr, 4000))
@@ -299,7 +306,7 @@ func dumpAndExit(why string) {
 
 // run lets the groups work for `secs` seconds under a watchdog, then joins them.
 func (s *soak) run(secs int, during func(elapsed time.Duration)) {
-	stall := 45 * time.Second
+	stall := 75 * time.Second
 	start := time.Now()
 	last := make([]int64, len(s.groups))
 	lastChange := make([]time.Time, len(s.groups))
@@ -446,12 +453,15 @@ func soakAlerts(secs int) {
 			Metric:      api.Metric{Name: "freespace", Peer: common.PeerN(k % 8), Value: strconv.Itoa(k), Valid: true},
 			TriggeredAt: time.Unix(int64(k), 0),
 		}
-		select {
-		case mon.AlertsCh <- a:
-			atomic.StoreInt64(&sent, int64(k))
-		case <-time.After(2 * time.Second):
-			// the handler did not take the alert: counted by the watchdog through lack of progress of readers? no: report
-			s.tornf("alertsHandler did not accept alert %d within 2s", k)
+		// blocks until the handler takes the alert; if it never does, this group stops making
+		// progress and the watchdog reports the stall
+		for delivered := false; !delivered && !s.stopped(); {
+			select {
+			case mon.AlertsCh <- a:
+				atomic.StoreInt64(&sent, int64(k))
+				delivered = true
+			case <-time.After(100 * time.Millisecond):
+			}
 		}
 		if k%64 == 0 {
 			time.Sleep(time.Duration(100+r.Intn(400)) * time.Microsecond)
@@ -481,23 +491,33 @@ func soakAlerts(secs int) {
 		if len(ids) > 0 {
 			newest = ids[0]
 		}
-		// exact shape: newest, newest-1, … for lenAfter(newest) entries
-		want := lenAfter(newest)
-		if len(ids) != want {
-			anomalous = true
-		} else {
-			for i, v := range ids {
-				if v != newest-i {
-					anomalous = true
-					break
-				}
+		// exact shape: newest, newest-1, … for lenAfter(newest) entries. A list with the right
+		// entries in another order is a behaviour change, not a torn result: it is printed and
+		// left to the model comparison.
+		sorted := descSorted(ids)
+		hi := 0
+		if len(sorted) > 0 {
+			hi = sorted[0]
+		}
+		want := lenAfter(hi)
+		wrongSet := len(ids) != want
+		for i, v := range sorted {
+			if v != hi-i {
+				wrongSet = true
+				break
+			}
+		}
+		for i, v := range ids {
+			if v != hi-i {
+				anomalous = true
 			}
 		}
 		// the list is a state that existed during the call
-		if newest < before-1 || newest > after {
-			s.tornf("Alerts() returned a list ending at alert %d, but %d..%d had been delivered during the call", newest, before, after)
+		if hi < before-1 || hi > after {
+			s.tornf("Alerts() returned a list ending at alert %d, but %d..%d had been delivered during the call", hi, before, after)
 		}
-		if anomalous {
+		if wrongSet || empty > 0 || dup > 0 {
+			anomalous = true
 			s.tornf("Alerts() returned a list that is no state of the alert log: n=%d newest=%d empty=%d dup=%d", len(ids), newest, empty, dup)
 		}
 		s.sample("alerts", fmt.Sprintf("C18 alerts max=%d => %s", maxAlerts, runs(ids)), anomalous)
@@ -561,24 +581,31 @@ func soakWindow(secs int) {
 			before := int(atomic.LoadInt64(&added))
 			ids := metricIDs(w1.All())
 			after := int(atomic.LoadInt64(&added)) + 1
+			sorted := descSorted(ids)
 			newest := 0
-			if len(ids) > 0 {
-				newest = ids[0]
+			if len(sorted) > 0 {
+				newest = sorted[0]
 			}
 			want := newest
 			if want > capN {
 				want = capN
 			}
-			anomalous := len(ids) != want
+			wrongSet := len(ids) != want
+			for i, v := range sorted {
+				if v != newest-i || v == 0 {
+					wrongSet = true
+				}
+			}
+			anomalous := wrongSet
 			for i, v := range ids {
 				if v != newest-i {
-					anomalous = true
+					anomalous = true // other order: left to the model comparison
 				}
 			}
 			if newest < before || newest > after {
 				s.tornf("Window.All() newest=%d outside what was added during the call (%d..%d)", newest, before, after)
 			}
-			if anomalous {
+			if wrongSet {
 				s.tornf("Window.All() returned no state of the window: n=%d newest=%d", len(ids), newest)
 			}
 			s.sample("window", fmt.Sprintf("C18 window cap=%d => %s", capN, runs(ids)), anomalous)
@@ -1051,6 +1078,27 @@ func soakStateless(secs int) {
 		}
 		time.Sleep(time.Duration(r.Intn(500)) * time.Microsecond)
 	})
+	// short-lived trackers: Shutdown from three goroutines at once while a caller is tracking
+	s.spawn("lifecycle", 1, func(w int, r *common.Rng) {
+		t := stateless.New(cfg, me, "p1", getState)
+		t.SetClient(client)
+		p := pinOf(r.Intn(nCids))
+		start := make(chan struct{})
+		var wg sync.WaitGroup
+		for i := 0; i < 3; i++ {
+			wg.Add(1)
+			go func() { defer wg.Done(); <-start; t.Shutdown(ctx) }()
+		}
+		wg.Add(1)
+		go func() {
+			defer wg.Done()
+			<-start
+			t.Track(ctx, p)
+			t.StatusAll(ctx, api.TrackerStatusUndefined)
+		}()
+		close(start)
+		wg.Wait()
+	})
 	// shut the tracker down while it is in use (at 70% of the run), twice, concurrently
 	var once sync.Once
 	sdDone := make(chan struct{})
@@ -1167,7 +1215,7 @@ func main() {
 	}
 	if args.Extra["stdin"] != "" {
 		if secs <= 0 {
-			secs = 4
+			secs = 6
 		}
 		want := map[string]bool{}
 		sc := bufio.NewScanner(os.Stdin)
